@@ -536,8 +536,10 @@ class AsyncServer(base_server.BaseServer):
         """Handle a client connection request."""
         namespace = namespace or '/'
         sid = None
-        if namespace in self.handlers or namespace in self.namespace_handlers \
-                or self.namespaces == '*' or namespace in self.namespaces:
+        if namespace != '*' and (
+                namespace in self.handlers
+                or namespace in self.namespace_handlers
+                or self.namespaces == '*' or namespace in self.namespaces):
             sid = await self.manager.connect(eio_sid, namespace)
         if sid is None:
             await self._send_packet(eio_sid, self.packet_class(
